@@ -162,6 +162,11 @@ static void push_evt(m_mod_t *mod, evt_priv_t *evt) {
                 mod->tb.tokens++;
             }
         }
+
+        /* Only the batch timer flushes batched events; any other internal event stops here */
+        if (!is_batch_timer) {
+            return;
+        }
     } else {
         m_queue_enqueue(mod->batch.events, evt);
         /*
